@@ -458,3 +458,33 @@ def call_args_by_name(repo, call: ast.Call, callee_qual: str) -> Dict[str, ast.A
     else:
         names = f.positional_names()
     return bind_call(call, names)[0]
+
+
+
+def expand_properties(cls: ClassInfo, e: ast.AST, self_name: str = 'self', depth: int = 2) -> ast.AST:
+    """`self.<prop>` replaced by what the property returns (single `return <expr>` properties of the class family):
+    `self.is_empty` and `self.left is None and self.right is None` compare equal."""
+    import copy as _c
+
+    class X(ast.NodeTransformer):
+        def visit_Attribute(self, n):
+            self.generic_visit(n)
+            if isinstance(n.value, ast.Name) and n.value.id == self_name and isinstance(n.ctx, ast.Load):
+                m = cls.find_method(n.attr)
+                if m is not None and m.is_property:
+                    rets = [r for r in m.body_nodes() if isinstance(r, ast.Return) and r.value is not None]
+                    if len(rets) == 1:
+                        sn = m.self_name() or 'self'
+                        body = _c.deepcopy(rets[0].value)
+                        for y in ast.walk(body):
+                            y.__dict__.pop('_parent', None)
+                            if isinstance(y, ast.Name) and y.id == sn:
+                                y.id = self_name
+                        return body
+            return n
+    out = _c.deepcopy(e)
+    for y in ast.walk(out):
+        y.__dict__.pop('_parent', None)
+    for _ in range(depth):
+        out = X().visit(out)
+    return out
